@@ -7,6 +7,7 @@ CONSTANTS
   QSize <- QSizeT
   MaxNow = 1000000000
   KF_C10_LostHandoff <- KfT
+  KF_Overtake = FALSE
   TtlPeek = FALSE
   Driver = FALSE
   KeepHist = FALSE
